@@ -433,7 +433,7 @@ func checkJSONNumber(r *Run, prog *Program, a *Anchors, pfx string) {
 	}
 	ps.Model = func(ev *Event) *Sym {
 		if ev.Callee == a.GetValue {
-			return &Sym{K: sTuple, Kids: []*Sym{{K: sOpaque, V: ev.Instr.Value(), Str: "value"}, {K: sConst, C: constant.MakeBool(true)}, nilSym()}}
+			return a.lookupModel(&Sym{K: sOpaque, V: ev.Instr.Value(), Str: "value"}, &Sym{K: sConst, C: constant.MakeBool(true)}, nilSym())
 		}
 		return nil
 	}
